@@ -25,6 +25,8 @@ structure St where
   scn : Bool := false
   /-- earlier queries of a multi-query run: (N, W, scaled, rows) -/
   done : List (Nat × Nat × Nat × List (Nat × Nat × String)) := []
+  /-- one live `QueryTaxResult` (after `build_summarized_result`) the `s…` writer ops share; the W·scaled it belongs to -/
+  sess : Option (List (List (Entry SF String)) × Nat) := none
 
 def init : St := {}
 
@@ -112,11 +114,6 @@ def multiLsum (r : Nat) (qs : List (List (List (Entry SF String)))) : Except Err
     let keys := keys.filter (· ≠ "unclassified") ++ keys.filter (· = "unclassified")
     .ok (keys.map (fun k => (k, per.map (fun l => ((l.reverse.lookup k)).getD SF.zero))))
 
-def answer (x : Except Err String) : String :=
-  match x with
-  | .ok s => if s = "" then "ok" else "ok " ++ s
-  | .error e => "err " ++ errName e
-
 /-- insertion sort of entries by display string (Python `sorted(dict.items())`) -/
 def insertByName (x : Entry SF String) : List (Entry SF String) → List (Entry SF String)
   | [] => [x]
@@ -124,6 +121,26 @@ def insertByName (x : Entry SF String) : List (Entry SF String) → List (Entry 
 
 def sortByName (l : List (Entry SF String)) : List (Entry SF String) :=
   l.foldl (fun acc x => insertByName x acc) []
+
+/-- lineage_summary rows of one query at rank `r`: sorted by name, unclassified last -/
+def lsumRows (r : Nat) (ess : List (List (Entry SF String))) : List (Entry SF String) :=
+  let es := ess.flatten.filter (fun e => e.rank = r)
+  sortByName (es.filter (fun e => !isUnclassified e)) ++ es.filter isUnclassified
+
+def showHuman (rows : List (Entry SF String)) : String :=
+  " ".intercalate (rows.map (fun e => s!"{enc (display e.lin)}|{fmtDecStr (timesHundred e.fw) 1}"))
+
+def showKreport (totalBp : Nat) (ess : List (List (Entry SF String))) : String :=
+  " ".intercalate ((kreportRows totalBp ess).map (fun k => s!"{k.pct}|{k.bpc}|{k.bpa}|{k.code}|{enc k.name}"))
+
+def showBioboxes (ess : List (List (Entry SF String))) : String :=
+  " ".intercalate ((ess.flatten.filter (fun e => !isUnclassified e)).map (fun e =>
+    s!"{Sm.Gen.taxNcbiRanks.getD e.rank "?"}|{enc (display e.lin)}|{fmtDecStr (timesHundred e.fw) 2}"))
+
+def answer (x : Except Err String) : String :=
+  match x with
+  | .ok s => if s = "" then "ok" else "ok " ++ s
+  | .error e => "err " ++ errName e
 
 def ratOp (ws : List String) (op : F → F → SF) : String :=
   match nats? ws with
@@ -171,20 +188,46 @@ def step (st : St) (line : String) : St × String :=
     match nat? r with
     | some r => (st, answer ((build st (some r)).map (fun ess => showEntries ess.flatten)))
     | none => bad
-  | ["csv"] =>
-    (st, answer ((build st none).map (fun ess => showEntries (ess.map (writerOrder f64)).flatten)))
+  | ["csv"] => (st, answer ((build st none).map (fun ess => showEntries (sessCsv f64 ess).2)))
   | ["krona", r] =>
     match nat? r with
-    | some r =>
-      (st, answer ((build st none).map (fun ess =>
-        showFracs (writerOrder f64 (ess.flatten.filter (fun e => e.rank = r))))))
+    | some r => (st, answer ((build st none).map (fun ess => showFracs (sessKrona f64 r ess))))
     | none => bad
   | ["lsum", r] =>
     match nat? r with
-    | some r =>
-      (st, answer ((build st none).map (fun ess =>
-        let es := ess.flatten.filter (fun e => e.rank = r)
-        showFracs (sortByName (es.filter (fun e => !isUnclassified e)) ++ es.filter isUnclassified))))
+    | some r => (st, answer ((build st none).map (fun ess => showFracs (lsumRows r ess))))
+    | none => bad
+  | ["sopen"] =>
+    match build st none with
+    | .ok ess => ({ st with sess := some (ess, st.W * st.scaled) }, "ok")
+    | .error e => ({ st with sess := none }, "err " ++ errName e)
+  | ["scsv"] =>
+    match st.sess with
+    | some (ess, t) =>
+      let (ess', rows) := sessCsv f64 ess
+      ({ st with sess := some (if Sm.Gen.taxWritersSortInPlace then ess' else ess, t) }, answer (.ok (showEntries rows)))
+    | none => bad
+  | ["shuman", r] =>
+    match nat? r, st.sess with
+    | some r, some (ess, t) =>
+      let (ess', rows) := sessHuman f64 r ess
+      ({ st with sess := some (if Sm.Gen.taxWritersSortInPlace then ess' else ess, t) }, answer (.ok (showHuman rows)))
+    | _, _ => bad
+  | ["skrona", r] =>
+    match nat? r, st.sess with
+    | some r, some (ess, _) => (st, answer (.ok (showFracs (sessKrona f64 r ess))))
+    | _, _ => bad
+  | ["slsum", r] =>
+    match nat? r, st.sess with
+    | some r, some (ess, _) => (st, answer (.ok (showFracs (lsumRows r ess))))
+    | _, _ => bad
+  | ["skreport"] =>
+    match st.sess with
+    | some (ess, t) => if st.mode ≠ "std" then (st, "err ValueError:other") else (st, answer (.ok (showKreport t ess)))
+    | none => bad
+  | ["sbioboxes"] =>
+    match st.sess with
+    | some (ess, _) => if st.mode ≠ "std" then bad else (st, answer (.ok (showBioboxes ess)))
     | none => bad
   | ["cls", r, p, q] =>
     let rank? : Option (Option Nat) := if r = "-" then some none else (nat? r).map some
@@ -207,29 +250,13 @@ def step (st : St) (line : String) : St × String :=
     | _, _ => bad
   | ["kreport"] =>
     if st.mode ≠ "std" then (st, "err ValueError:other")
-    else
-      (st, answer ((build st none).map (fun ess =>
-        " ".intercalate ((kreportRows (st.W * st.scaled) ess).map (fun k =>
-          s!"{k.pct}|{k.bpc}|{k.bpa}|{k.code}|{enc k.name}")))))
+    else (st, answer ((build st none).map (fun ess => showKreport (st.W * st.scaled) ess)))
   | ["bioboxes"] =>
     if st.mode ≠ "std" then bad
-    else
-      (st, answer ((build st none).map (fun ess =>
-        " ".intercalate ((ess.flatten.filter (fun e => !isUnclassified e)).map (fun e =>
-          s!"{Sm.Gen.taxNcbiRanks.getD e.rank "?"}|{enc (display e.lin)}|{fmtDecStr (timesHundred e.fw) 2}")))))
+    else (st, answer ((build st none).map (fun ess => showBioboxes ess)))
   | ["human", r] =>
     match nat? r with
-    | some r =>
-      (st, answer ((build st none).map (fun ess =>
-        let es := ess.flatten.filter (fun e => e.rank = r)
-        -- `display_rank_results.sort(key=lambda res: -res.f_weighted_at_rank)`: stable, by weighted fraction
-        let byFw := es.foldl (fun acc x =>
-          let rec ins (l : List (Entry SF String)) : List (Entry SF String) :=
-            match l with
-            | [] => [x]
-            | y :: t => if SF.lt y.fw x.fw then x :: y :: t else y :: ins t
-          ins acc) []
-        " ".intercalate (byFw.map (fun e => s!"{enc (display e.lin)}|{fmtDecStr (timesHundred e.fw) 1}")))))
+    | some r => (st, answer ((build st none).map (fun ess => showHuman (sessHuman f64 r ess).2)))
     | none => bad
   | ["nextq"] =>
     if st.N = 0 then bad
